@@ -27,7 +27,7 @@ struct Counters
 	uint64_t plans, ops, made, movedChains, reads, isTypeChecks, queueRoundTrips, largeStored, inlineStored, atCapacity, onePastCapacity,
 		faultRuns, faultsInjected, faultsByKind[F_KINDS], opsFailedByFault;
 	uint64_t perN[NN];
-	uint64_t kindCounts[4];
+	uint64_t kindCounts[5];
 };
 extern Counters counters;
 
@@ -89,6 +89,24 @@ struct Shared
 	bool is(int v) const { if(!p || p->val != v) return false; for(int i = 0; i < (PAD > 0 ? PAD : 1); ++i) if(pad[i] != (unsigned char)(v + i)) return false; return true; }
 	bool alive() const { return p && p->alive("shared object read"); }
 	enum { kind = 3 };
+};
+
+// trivially destructible, yet not trivially movable: the object knows its own address and a move marks its source, so a
+// byte-wise relocation (or a move that bypasses the move constructor) is visible
+template <int PAD, int TAG>
+struct SelfRef
+{
+	const SelfRef * self;
+	int val;
+	unsigned char pad[PAD > 0 ? PAD : 1];
+	explicit SelfRef(int v) : self(this), val(v) { for(int i = 0; i < (PAD > 0 ? PAD : 1); ++i) pad[i] = (unsigned char)(v + i + TAG); }
+	SelfRef(const SelfRef & o) : self(this), val(o.val) { std::memcpy(pad, o.pad, sizeof(pad)); }
+	SelfRef(SelfRef && o) : self(this), val(o.val) { std::memcpy(pad, o.pad, sizeof(pad)); o.val = -1; }
+	SelfRef & operator = (const SelfRef &) = delete;
+	static SelfRef make(int v) { return SelfRef(v); }
+	bool is(int v) const { if(val != v) return false; for(int i = 0; i < (PAD > 0 ? PAD : 1); ++i) if(pad[i] != (unsigned char)(v + i + TAG)) return false; return true; }
+	bool alive() const { return self == this; }
+	enum { kind = 4 };
 };
 
 template <typename T> struct IsCopyable { enum { value = std::is_copy_constructible<T>::value }; };
@@ -241,6 +259,7 @@ void add(std::vector<Entry> & v, const char * name)
 #define TRK(P) add<N, Trk<P, 1>, Trk<P, 2> >(v, "tracked non-trivial, pad " #P);
 #define MO(P) add<N, MoveOnly<P, 1>, MoveOnly<P, 2> >(v, "move-only, pad " #P);
 #define SH(P) add<N, Shared<P, 1>, Shared<P, 2> >(v, "shared-ownership, pad " #P);
+#define SR(P) add<N, SelfRef<P, 1>, SelfRef<P, 2> >(v, "self-referential trivially destructible, pad " #P);
 
 template <int N>
 void registerAll(std::vector<Entry> & v)
@@ -249,6 +268,7 @@ void registerAll(std::vector<Entry> & v)
 	TRK(0) TRK(4) TRK(8) TRK(12) TRK(16) TRK(20) TRK(56) TRK(60) TRK(64) TRK(100)
 	MO(0) MO(4) MO(8) MO(12) MO(16) MO(20) MO(56) MO(60) MO(64) MO(100)
 	SH(0) SH(8) SH(16) SH(48) SH(56) SH(100)
+	SR(0) SR(4) SR(5) SR(12) SR(13) SR(52) SR(53) SR(100)
 }
 
 #if SEQ_VARIANT == 0
@@ -337,7 +357,7 @@ void execute(const Plan & plan, RunOut & out)
 	const int capacity = kN[n] < 16 ? 16 : kN[n];
 	if(e.size == capacity) ++counters.atCapacity;
 	if(e.size == capacity + 1) ++counters.onePastCapacity;
-	++counters.plans; ++counters.perN[n]; ++counters.kindCounts[e.kind & 3];
+	++counters.plans; ++counters.perN[n]; ++counters.kindCounts[e.kind % 5];
 	out.subRuns = subRuns;
 	out.steps = (long)(plan.tasks.empty() ? 0 : plan.tasks[0].size());
 	uint64_t ch = kHashInit;
@@ -375,7 +395,7 @@ void statsJson(std::string & out)
 	std::ostringstream o;
 	o << ",\"probes\":{\"ops\":" << c.ops << ",\"constructed\":" << c.made << ",\"move_constructions\":" << c.movedChains << ",\"reads\":" << c.reads << ",\"queue_round_trips\":" << c.queueRoundTrips
 	  << ",\"stored_on_heap\":" << c.largeStored << ",\"stored_inline\":" << c.inlineStored << ",\"plans_with_size_equal_to_capacity\":" << c.atCapacity << ",\"plans_with_size_one_past_capacity\":" << c.onePastCapacity
-	  << ",\"kind_counts_trivial_tracked_moveonly_shared\":[" << c.kindCounts[0] << "," << c.kindCounts[1] << "," << c.kindCounts[2] << "," << c.kindCounts[3] << "]}"
+	  << ",\"kind_counts_trivial_tracked_moveonly_shared_selfref\":[" << c.kindCounts[0] << "," << c.kindCounts[1] << "," << c.kindCounts[2] << "," << c.kindCounts[3] << "," << c.kindCounts[4] << "]}"
 	  << ",\"faults\":{\"fault_runs\":" << c.faultRuns << ",\"injected_total\":" << c.faultsInjected << ",\"alloc\":" << c.faultsByKind[F_ALLOC] << ",\"copy\":" << c.faultsByKind[F_COPY]
 	  << ",\"move\":" << c.faultsByKind[F_MOVE] << ",\"call\":" << c.faultsByKind[F_CALL] << ",\"operations_failed_by_fault\":" << c.opsFailedByFault << "}"
 	  << ",\"per_variant\":[" << c.perN[0] << "," << c.perN[1] << "," << c.perN[2] << "," << c.perN[3] << "," << c.perN[4] << "]";
